@@ -447,6 +447,12 @@ def _check_case(case, res):
         res["queries"] += 1
         if r != "unsat":
             return {"status": "inconclusive" if r == "unknown" else "violation", "detail": "debug/plain differ", "kind": "neutrality"}
+    # C14, last clause: what a debug marker receives is the source-level value of the call's argument
+    mv_ctx = None
+    if True in machines and case.check_markers and case.prog is not None:
+        r, mv_ctx = _marker_values(case, text, machines[True], spec, f_spec, solver, res, rng)
+        if r is not None:
+            return r
     # vacuity witnesses + concrete cross-validation against the real pipeline
     if case.validate:
         dbg = case.debug_modes[-1]
@@ -531,6 +537,154 @@ def _check_case(case, res):
             else:
                 res["validated_fail"] += 1
     return {"status": "held"}
+
+
+VALUE_KINDS = ("Debug", "UnwrapLeft", "UnwrapRight")  # the kinds whose marker input TrackedCall::map_value reconstructs
+
+
+def _marker_values(case, text, md, spec, f_spec, solver, res, rng):
+    """Every marker of a value-carrying kind (dbg!, unwrap_left, unwrap_right) that a successful run reaches receives
+    exactly the book-layout bits of the source-level value of the call's argument (as some evaluation of that call
+    site in the source semantics computes it).  Decided for all witnesses; returns (result or None, context)."""
+    m, d = md
+    if getattr(m, "tap_overflow", False):
+        res["marker_values_skipped"] = "too many marker entries"
+        return None, None
+    taps = m.tap_conditions()
+    pr = S.Printer(case.prog.aliases)
+    nows = lambda x: "".join(x.split())
+    by_site = {}
+    for kind, e, aty, bits in spec.calls:
+        if kind in VALUE_KINDS:
+            by_site.setdefault((kind, nows(pr.expr(e.e if kind == "Debug" else e))), []).append((aty, bits))
+    entries = []
+    bad = []
+    for key, (marker, args, reach) in taps.items():
+        kind = marker["kind"].split("(")[0]
+        if kind not in VALUE_KINDS:
+            continue
+        site = (kind, nows(marker["text"]))
+        recs = by_site.get(site, [])
+        aw = args.w if args is not None else 0
+        entries.append((key, site, args, reach, recs))
+        if any((b is args) for _, b in recs):
+            continue
+        differs = T.true()
+        for _, b in recs:
+            bw = b.w if b is not None else 0
+            if bw == aw and aw:
+                differs = T.and_(differs, T.not_(T.eq(args, b)))
+            elif bw == aw:
+                differs = T.false()
+        bad.append((key, T.and_(reach, differs)))
+    res["marker_value_entries"] = len(entries)
+    if not entries:
+        return None, None
+    ctx = {"entries": entries, "d": d, "m": m}
+    goal = T.false()
+    for _, g in bad:
+        goal = T.or_(goal, g)
+    goal = T.and_(T.not_(f_spec), goal)
+    if goal.op == "c":
+        res["closed_by_rewriting"] = res.get("closed_by_rewriting", 0) + 1
+    r, model = solver.check(goal, abstract=False)
+    res["queries"] += 1
+    res["marker_value_queries"] = res.get("marker_value_queries", 0) + 1
+    if r == "unknown":
+        return {"status": "inconclusive", "detail": "marker values: solver: %s" % str(model)[:300]}, None
+    if r == "unsat":
+        _second_opinion(goal, res)
+        # concrete part: successful runs (random witnesses completed by the solver) through the real map_value
+        for attempt in range(2):
+            base = _random_model(m, rng, boundary=(attempt == 1))
+            g = T.substitute(f_spec, {k: v for k, v in base.items() if not k.startswith("w_EXP")})
+            rr, mod = solver.check(T.not_(g), timeout_s=10)
+            res["queries"] += 1
+            if rr != "sat":
+                continue
+            model = dict(base)
+            model.update(mod)
+            try:
+                if T.evaluate(f_spec, model):
+                    continue
+            except KeyError:
+                break
+            real = run_real(case, text, True, _model_witness_bits(m, d, model))
+            if not real.get("ok") or not real.get("success"):
+                continue  # verdict disagreements are reported by the cross-validation of the behaviour families
+            v = _marker_reconstruct(case, text, ctx, model, res)
+            if v is not None:
+                return v, None
+        return None, ctx
+    # counterexample: find the entry, evaluate it concretely on the emitted DAG, and put the value through the real
+    # TrackedCall::map_value; a violation is reported only if the real reconstruction differs from every source-level
+    # value the call site computes under this witness
+    try:
+        for key, g in bad:
+            if not T.evaluate(g, model):
+                continue
+            marker, args, reach = taps[key]
+            kind = marker["kind"].split("(")[0]
+            site = (kind, nows(marker["text"]))
+            recs = by_site.get(site, [])
+            got = T.evaluate(args, model) if args is not None else 0
+            aw = args.w if args is not None else 0
+            expected = []
+            for aty, b in recs:
+                bv = T.evaluate(b, model) if b is not None else 0
+                expected.append({"type": S.ty_str(aty), "value": S.value_text(aty, bv), "bits": format(bv, "0%db" % S.width(aty)) if S.width(aty) else ""})
+            wb = _model_witness_bits(m, d, model)
+            req = {"op": "mapvalue", "text": text, "args": _arg_request(case), "cmr": d["nodes"][key[0]]["cmr"],
+                   "bits": format(got, "0%db" % aw) if aw else ""}
+            real = _W["run"].ask(req)
+            rec = {"property_case": case.cid, "kind": "marker_value", "text": text, "args": _arg_request(case), "witness": wb,
+                   "marker": marker, "request": req, "source_values": expected, "real": real, "tags": case.tags}
+            if real.get("ok") and real.get("value") is not None:
+                # compare through the real parser: does the reconstructed value equal one of the source-level values?
+                for ex in expected:
+                    rr = _W["run"].ask(dict(req, expect=ex["value"]))
+                    if rr.get("expect_eq"):
+                        raise Broken("marker-value counterexample does not reproduce: the real reconstruction %s equals the source value" % real.get("value"))
+            return {"status": "violation", "kind": "marker_value", "replay_record": rec,
+                    "detail": "the marker of %s `%s` receives %s (real map_value: %s) while the source-level argument is %s" % (
+                        kind, marker["text"][:60], req["bits"], real.get("value") if real.get("ok") else real.get("error"),
+                        [e["value"] for e in expected][:3])}, None
+    except KeyError:
+        return {"status": "unconfirmed", "detail": "marker-value counterexample depends on an uninterpreted jet meaning"}, None
+    raise Broken("marker-value model does not satisfy its own query")
+
+
+def _marker_reconstruct(case, text, ctx, model, res):
+    """concrete part of the same clause: at a cross-validated successful run, the value each reached dbg!/unwrap_left/
+    unwrap_right marker receives is reconstructed by the REAL TrackedCall::map_value and must equal the value that the
+    book layout reads from those bits at the call's source-level argument type"""
+    m, d = ctx["m"], ctx["d"]
+    done = 0
+    for key, site, args, reach, recs in ctx["entries"]:
+        if done >= 6 or not recs:
+            break
+        try:
+            if not T.evaluate(reach, model):
+                continue
+            got = T.evaluate(args, model) if args is not None else 0
+        except KeyError:
+            return None
+        aty = recs[0][0]
+        aw = args.w if args is not None else 0
+        if S.width(aty) != aw:
+            continue  # a width disagreement is reported by the symbolic query
+        req = {"op": "mapvalue", "text": text, "args": _arg_request(case), "cmr": d["nodes"][key[0]]["cmr"],
+               "bits": format(got, "0%db" % aw) if aw else "", "expect": S.value_text(aty, got)}
+        real = _W["run"].ask(req)
+        done += 1
+        res["marker_reconstructions"] = res.get("marker_reconstructions", 0) + 1
+        if not real.get("ok") or real.get("expect_eq") is not True:
+            rec = {"property_case": case.cid, "kind": "marker_reconstruct", "text": text, "args": _arg_request(case),
+                   "witness": _model_witness_bits(m, d, model), "request": req, "real": real, "tags": case.tags}
+            return {"status": "violation", "kind": "marker_reconstruct", "replay_record": rec,
+                    "detail": "map_value of %s `%s` on bits %s gives %s, the source-level value is %s" % (
+                        site[0], site[1][:60], req["bits"], real.get("value") if real.get("ok") else "%s: %s" % (real.get("stage"), real.get("error")), req["expect"])}
+    return None
 
 
 def _confirm(case, text, dbg, m, d, model, f_spec, f_impl, res):
